@@ -58,32 +58,42 @@ Definition c03_im (c : c03_case) : bool :=
   | None => false
   end.
 
-(* token accounting for the fragment: identifiers, literals and operators of the AST in order *)
-Fixpoint yield (a : ast) : list str :=
-  let fix ys (l : list ast) : list str :=
+(* token accounting for the fragment: identifiers, literals and operators of the AST in the order written,
+   each with the token type it must have come from (an operator of the AST is an operator TOKEN, not a string
+   literal or quoted identifier with the same text) *)
+Definition const_tok (c : str) : N * str :=
+  match c with
+  | 110 :: 58 :: r => (12, r)      (* "n:" number *)
+  | 115 :: 58 :: r => (13, r)      (* "s:" string *)
+  | 99 :: 58 :: r => (0, r)        (* "c:" constant identifier *)
+  | _ => (16, c)
+  end.
+
+Fixpoint yield (a : ast) : list (N * str) :=
+  let fix ys (l : list ast) : list (N * str) :=
     match l with [] => [] | x :: r => yield x ++ ys r end in
   match a with
-  | AOp o _ x y => yield x ++ o :: yield y
-  | AUn o v => o :: yield v
-  | AAccess k m => yield m ++ [k]
-  | AMethod nm args v => yield v ++ nm :: ys args
+  | AOp o _ x y => yield x ++ (14, o) :: yield y
+  | AUn o v => (14, o) :: yield v
+  | AAccess k m => yield m ++ [(0, k)]
+  | AMethod nm args v => yield v ++ (0, nm) :: ys args
   | AIndex i l => yield l ++ yield i
   | AListLit l => ys l
-  | AIdent x _ => [x]
-  | AConst c => [skipn 2 c]
+  | AIdent x _ => [(0, x)]
+  | AConst c => [const_tok c]
   | ACall f args => yield f ++ ys args
   | _ => []
   end.
 
-Fixpoint strs_eq (a b : list str) : bool :=
+Fixpoint ktoks_eq (a b : list (N * str)) : bool :=
   match a, b with
   | [], [] => true
-  | x :: a', y :: b' => str_eqb x y && strs_eq a' b'
+  | (k, x) :: a', (k', y) :: b' => N.eqb k k' && str_eqb x y && ktoks_eq a' b'
   | _, _ => false
   end.
 
-Definition content_toks (ts : list tk) : list str :=
-  map kimg (filter (fun t => match ktyp t with tIdent | tNumber | tString | tOperate => true | _ => false end) ts).
+Definition content_toks (ts : list (N * str)) : list (N * str) :=
+  filter (fun t => match fst t with 0 | 12 | 13 | 14 => true | _ => false end) ts.
 
 Fixpoint tks_eqb (a b : list tk) : bool :=
   match a, b with
@@ -116,7 +126,7 @@ Definition c03_is (c : c03_case) : bool :=
       match o with
       | OPanic => false
       | OErr => true
-      | OAst a => balanced ts && strs_eq (yield a) (content_toks ts)
+      | OAst a => balanced ts && ktoks_eq (yield a) (content_toks (i_toks i))
       end
   | 2 => match o with OAst _ => true | _ => false end
   | _ => match o with OPanic => false | _ => true end
